@@ -40,6 +40,8 @@ def cases(draw, tier="quick"):
         iq = draw(st.one_of(st.just(base), st.lists(st.sampled_from([base, base + 0.5 * temp, base + 2 * temp, base - temp]),
                                                     min_size=2, max_size=3)))
     return {
+        # a heuristic-style initial_q may be infinite / undefined at absorbing states (a pit is "infinitely far from the goal")
+        "initial_q_at_absorbing": draw(st.sampled_from([None, None, None, "-inf", "inf", "nan", "undefined"])),
         "mdp": spec, "learner": draw(st.sampled_from(LEARNERS)),
         "step_size": draw(st.sampled_from([0, 0.1, 0.25, 0.5, 1, 1.0, 1e-10, 0.01])),
         "rand_choose": draw(st.sampled_from([0, 0.0, 0.1, 0.5, 1])),
@@ -71,9 +73,20 @@ def prop_td(case, ctx):
     ref = RefMDP(spec)
     S, A, sidx, aidx = view.S, view.A, view.sidx, view.aidx
     iq = case["initial_q"]
-    if isinstance(iq, list):
-        init_fn = lambda s, a: iq[aidx[a] % len(iq)]
+    absorbing_ = lambda s: bool(spec["absorbing"][sidx[s]])
+    at_abs = case.get("initial_q_at_absorbing")      # what a callable initial_q says about absorbing states (never used: they are 0)
+    if isinstance(iq, list) or at_abs:
+        base_fn = (lambda s, a: iq[aidx[a] % len(iq)]) if isinstance(iq, list) else (lambda s, a: iq)
+
+        def init_fn(s, a):
+            if at_abs and absorbing_(s):
+                if at_abs == "undefined":
+                    raise KeyError(s)
+                return float(at_abs)
+            return base_fn(s, a)
         initial_q = init_fn
+        if at_abs:
+            ctx.event("initial_q_at_absorbing=" + at_abs)
     else:
         init_fn = lambda s, a: iq
         initial_q = iq
@@ -239,7 +252,7 @@ def prop_td(case, ctx):
     if gamma < 1.0 and 0 <= alpha <= 1:
         pos = ref.W > 0
         rmin, rmax = float(ref.R[pos].min()), float(ref.R[pos].max())
-        q0 = [init_fn(s, a) for s in mdp.state_list for a in mdp.actions(s)]
+        q0 = [init_fn(s, a) for s in mdp.state_list if not absorbing(s) for a in mdp.actions(s)] or [0.0]
         lo = min(min(q0), 0.0, rmin / (1 - gamma)) - 1e-9
         hi = max(max(q0), 0.0, rmax / (1 - gamma)) + 1e-9
         for s2, row in final.items():
